@@ -187,6 +187,31 @@ func main() {
 											"schedule": x.Describe(), "calls": calls, "dst_write_calls": sink.Calls, "dst_bytes": len(sink.Buf), "fault_fired": sink.Failed, "chunk": C}
 									}
 									cid := id0 + "/" + fmt.Sprint(x.Choices)
+									// after-failure hygiene: whatever happened above, a fresh encryption to a healthy destination in the
+									// same process must still produce a complete valid file (no state may leak out of a failed operation)
+									if sink.Failed {
+										for rep := 0; rep < 2; rep++ {
+											p2 := lab.Plain(37+rep, c.Seed+9)
+											f2, err := lab.Encrypt(rs, p2, armored, nil)
+											okAfter := err == nil
+											if okAfter {
+												bin2 := f2
+												if armored {
+													b, aok := lab.Dearmor(f2)
+													okAfter = aok
+													bin2 = b
+												}
+												if okAfter {
+													rr := refage.OpenFile(bin2, x0.Ref, C)
+													okAfter = rr.Accepted && bytes.Equal(rr.Plain, p2)
+												}
+											}
+											if !okAfter {
+												c.Fail("failed-operation-corrupts-later-output", cid, "after an encryption whose destination failed, a later encryption to a healthy destination in the same process does not produce a valid file", det())
+												break
+											}
+										}
+									}
 									switch {
 									case pan == "SHORTCOUNT":
 										c.Fail("short-write-count-without-error", cid, "Write returned a short count with a nil error", det())
